@@ -1,5 +1,6 @@
 """C09 — check configuration and MANIFEST entry."""
-CFG = {'assumptions': ['f64 inputs cross the boundary as bit patterns and are decoded to exact rationals; Rust f64 '
+CFG = {'long_max_vertices': 200,   # the exact oracle is quadratic in the vertex count
+ 'assumptions': ['f64 inputs cross the boundary as bit patterns and are decoded to exact rationals; Rust f64 '
                  'ops are IEEE-754',
                  'correspondence inputs have coordinates that are multiples of 1/16 below 2^20 (checked per case by '
                  'the driver, SKIP inexact-regime otherwise): every branch of line_segment_distance, every triangle '
